@@ -8,6 +8,7 @@ import Ivg.Lemmas.PathExamples
 import Ivg.Gen.Tie.GeneratorFields
 import Ivg.Gen.Tie.MdFields
 import Ivg.Gen.Tie.Code.Aff3
+import Ivg.Gen.Tie.Code.Concat
 import Ivg.Obligations
 /-!
 # C20 — SVG path data in the generator, transforms, and the Material-Design converter
@@ -691,4 +692,11 @@ end Ivg.Props.C20
   Ivg.Gen.Tie.mulAff3_code_tie,
   Ivg.Gen.Tie.mulAff3_code_tie',
   Ivg.Gen.Tie.translate_code_tie,
-  Ivg.Gen.Tie.scale_code_tie]
+  Ivg.Gen.Tie.scale_code_tie,
+  -- regenerated code with loops/recursion (translator, fuel) = model, for all inputs and sufficient fuel: Concat
+  Ivg.Gen.Tie.concat_code_tie,
+  Ivg.Gen.Tie.concat_code_tie_model,
+  Ivg.Gen.Tie.generator_SetTransform_code_tie,
+  Ivg.Gen.Tie.normalize_code_tie,
+  Ivg.Gen.Tie.mdicons_normalize_code_tie,
+  Ivg.Gen.Tie.mdicons_normalize_code_tie_take]
